@@ -20,6 +20,7 @@ import (
 	_ "verifharness/props/c15"
 	_ "verifharness/props/c17"
 	_ "verifharness/props/c18"
+	_ "verifharness/props/c19"
 	_ "verifharness/props/c20"
 )
 
